@@ -64,7 +64,8 @@ func GetJsonDataType(t dsl.Type) JsonDataType {
 		}
 	case *dsl.EnumDefinition:
 		if td.IsFlags {
-			return JsonArray
+			// an array of symbols, or a number when the value has bits that no symbol covers
+			return JsonArray | JsonNumber
 		}
 		return JsonString | JsonNumber
 	case *dsl.RecordDefinition:
